@@ -52,14 +52,15 @@ func GenerateWithdrawalHash(bridgeId uint64, l2Sequence uint64, sender string, r
 }
 
 func GenerateNodeHash(a, b []byte) [32]byte {
-	var data [32]byte
+	// never append to the caller's slices: they may share a backing array
+	seed := make([]byte, 0, len(a)+len(b))
 	switch bytes.Compare(a, b) {
 	case 0, 1: // equal or greater
-		data = sha3.Sum256(append(b, a...))
+		seed = append(append(seed, b...), a...)
 	case -1: // less
-		data = sha3.Sum256(append(a, b...))
+		seed = append(append(seed, a...), b...)
 	}
-	return data
+	return sha3.Sum256(seed)
 }
 
 func GenerateRootHashFromProofs(data [32]byte, proofs [][]byte) [32]byte {
